@@ -288,9 +288,14 @@ def conc_case(args):
 
     def consumer():
         return [{'m': rng.choice(['popleft', 'popleft', 'pop']), 'now': 1000} for _ in range(rng.randint(1, 2))]
-    shape = rng.choice(['pc', 'pc', 'pp', 'cc', 'pcc'])
+    def deleter():
+        # deletion by index goes through the key of the i-th item, which a consumer may take away meanwhile
+        # (assignment by index is left out: `deque[i] = v` racing a pop of that item stores v under the popped item's
+        # key again - an observation outside C11's concurrent clause, which speaks of producers and consumers)
+        return [{'m': 'delitem', 'now': 1000, 'i': rng.choice([0, 0, -1])}]
+    shape = rng.choice(['pc', 'pc', 'pp', 'cc', 'pcc', 'dc', 'dc'])
     progs = {'pc': [producer('a'), consumer()], 'pp': [producer('a'), producer('b')], 'cc': [consumer(), consumer()],
-             'pcc': [producer('a'), consumer(), consumer()]}[shape]
+             'pcc': [producer('a'), consumer(), consumer()], 'dc': [deleter(), consumer()]}[shape]
     programs = {i: p for i, p in enumerate(progs)}
     scheds = []
     bound = 26 if tier == 'quick' else 40
